@@ -9,19 +9,6 @@ theorem a_movq_imm_frame (s : State) (v : Int) (name : String) (off : Nat) (fr' 
     execD s (ins .MOVQ [.imm v, .frame name off] 0) = .ok { s with frame := fr' } := by
   simp [execD, ins, exMov, writeSlot, h]
 
-/-- the argument frame of `openAsm` with the result slot set -/
-def openFrame (t : Nat) (nonce ct aad : List Nat) (r : Nat) : List (String × Nat) :=
-  [("rk", arg 0), ("tagSize", t), ("dst", arg 1), ("nonce", arg 2), ("nonceLen", nonce.length),
-   ("nonceCap", nonce.length), ("cipher", arg 3), ("cipherLen", ct.length), ("aData", arg 4), ("aLen", aad.length),
-   ("tmp", arg 5), ("ret1", r)]
-
-theorem openState_frame (g v k rk : List Nat) (t : Nat) (dst nonce ct aad tmp : List Nat) (r0 : Nat) :
-    (openState g v k rk t dst nonce ct aad tmp r0).frame = openFrame t nonce ct aad r0 := rfl
-
-theorem setRet (t : Nat) (nonce ct aad : List Nat) (r0 : Nat) (v : Nat) :
-    setSlot (openFrame t nonce ct aad r0) "ret1" (fun _ => v) = some (openFrame t nonce ct aad v) := by
-  simp [openFrame, setSlot]
-
 theorem open_ladLabels : LadLabels openR 1785 10247 :=
   ⟨label_findPc open_labels (name := "loopX16") (by decide), label_findPc open_labels (name := "X16Done") (by decide),
    label_findPc open_labels (name := "loopX8") (by decide), label_findPc open_labels (name := "X8Done") (by decide),
@@ -61,34 +48,37 @@ theorem ladN_fst_hf0 (rk jb : List Nat) (h : Nat) : ∀ (fuel c y y' : Nat) (src
       rw [ih _ y y']
 
 /-- plaintext of `openAsm` on numbers: the ladder without hashing over the input minus its tag -/
-def openOutN (rk nonce ct : List Nat) (t fuel : Nat) : List Nat :=
-  (ladN rk (nonce ++ [0, 0, 0, 1]) (hKey rk) 0 fuel 0 0 (ct.take (ct.length - t))).1
+def openOutJ (rk jb ct : List Nat) (t fuel : Nat) : List Nat :=
+  (ladN rk jb (hKey rk) 0 fuel 0 0 (ct.take (ct.length - t))).1
 
 set_option maxHeartbeats 4000000 in
 set_option maxRecDepth 100000 in
-/-- **`openAsm` from entry to `RET`, 12-byte nonce**: on a tag mismatch the result slot is 0 and the destination is untouched;
-    otherwise the result slot is 1 and the destination holds the decryption -/
-theorem open_reach12 (g v k rk : List Nat) (t : Nat) (dst nonce ct aad tmp : List Nat) (r0 : Nat)
-    (hG : g.length = 16) (hV : v.length = 32) (hK : k.length = 8) (hrk : rk.length = 32) (hrkb : ∀ x ∈ rk, x < 2 ^ 32)
-    (hn : nonce.length = 12) (hnb : ∀ x ∈ nonce, x < 2 ^ 8) (hab : ∀ x ∈ aad, x < 2 ^ 8) (hall : aad.length < 2 ^ 32)
-    (hcb : ∀ x ∈ ct, x < 2 ^ 8) (hcl : ct.length < 2 ^ 32) (ht : t ≤ 16) (htc : t ≤ ct.length) (htmp : tmp.length = 32)
-    (hdl : ct.length - t ≤ dst.length) (hdl32 : dst.length < 2 ^ 32) (fuel : Nat) (hfuel : fuelNeed (ct.length - t) ≤ fuel) :
-    ∃ s' N, N ≤ 34 * (aad.length / 16) + 34 * ((ct.length - t) / 16) + 700 * ((ct.length - t) / 256) + 6500 ∧
-      Reach openR 0 (openState g v k rk t dst nonce ct aad tmp r0) 5558 s' N ∧
-      (if orBytes (xorN ((openTagN rk nonce ct aad t).take t) (ct.drop (ct.length - t))) = 0
-       then s'.frame = openFrame t nonce ct aad 1 ∧ regionBytes s' "dst" = some (spliceAt dst 0 (openOutN rk nonce ct t fuel))
-       else s'.frame = openFrame t nonce ct aad 0 ∧ regionBytes s' "dst" = some dst) := by
-  obtain ⟨s9, N9, hN9, r9, av⟩ := open_verdict12 g v k rk t dst nonce ct aad tmp r0 hG hV hK hrk hrkb hn hnb hab hall hcb hcl ht htc htmp
+/-- **`openAsm` from the verdict to `RET`**: on a tag mismatch the result slot is 0 and the destination is untouched; otherwise the
+    result slot is 1 and the destination holds the decryption -/
+theorem open_after_verdict_gen (rk : List Nat) (t : Nat) (dst nonce inp ct aad : List Nat) (cp r0 : Nat)
+    (hrk : rk.length = 32) (hrkb : ∀ x ∈ rk, x < 2 ^ 32)
+    (hcb : ∀ x ∈ ct, x < 2 ^ 8) (hcl : ct.length < 2 ^ 32) (ht : t ≤ 16) (htc : t ≤ ct.length)
+    (hdl : ct.length - t ≤ dst.length) (hdl32 : dst.length < 2 ^ 32) (jb : List Nat) (hjb : jb.length = 16) (hjbb : ∀ x ∈ jb, x < 2 ^ 8)
+    (s9 : State) (av : AtVerdictG (openFrame cp t nonce ct aad r0) rk t dst nonce inp ct aad jb s9)
+    (lm : LadMem (fun d t' => fmem "cipher" false rk d nonce inp aad t') 77309411328 dst.length 94489280512 rk
+      (ct.take (ct.length - t)) cp)
+    (hs0 : ∀ b, b.length = 32 → SrcFrom (fmem "cipher" false rk dst nonce inp aad b) cp (ct.take (ct.length - t)) 0)
+    (hcp : cp + ct.length < 2 ^ 63)
+    (fuel : Nat) (hfuel : fuelNeed (ct.length - t) ≤ fuel) :
+    ∃ s' N, N ≤ 700 * ((ct.length - t) / 256) + 4300 ∧ Reach openR 1775 s9 5558 s' N ∧
+      (if orBytes (xorN ((openTagJ rk jb ct aad t).take t) (ct.drop (ct.length - t))) = 0
+       then s'.frame = openFrame cp t nonce ct aad 1 ∧ regionBytes s' "dst" = some (spliceAt dst 0 (openOutJ rk jb ct t fuel))
+       else s'.frame = openFrame cp t nonce ct aad 0 ∧ regionBytes s' "dst" = some dst) := by
   obtain ⟨b9, hb9, hm9⟩ := av.mem
   have os := open_slices'
-  have hfr9 : s9.frame = openFrame t nonce ct aad r0 := av.frame.trans (openState_frame ..)
-  obtain ⟨d, hd⟩ : ∃ d, d = orBytes (xorN ((openTagN rk nonce ct aad t).take t) (ct.drop (ct.length - t))) := ⟨_, rfl⟩
+  have hfr9 : s9.frame = openFrame cp t nonce ct aad r0 := av.frame
+  obtain ⟨d, hd⟩ : ∃ d, d = orBytes (xorN ((openTagJ rk jb ct aad t).take t) (ct.drop (ct.length - t))) := ⟨_, rfl⟩
   rw [← hd]
   have hdlt : d < 2 ^ 8 := by
     rw [hd]
     exact orBytes_lt _ (xorN_bytes _ _ (fun b hb => by
       have := List.mem_of_mem_take hb
-      unfold openTagN at this
+      unfold openTagJ at this
       exact mem_lanes_lt 8 16 _ b this) (fun b hb => hcb b (List.mem_of_mem_drop hb)))
   have hg2 : greg s9 2 = d := by rw [hd]; exact av.g2
   -- the verdict
@@ -106,18 +96,18 @@ theorem open_reach12 (g v k rk : List Nat) (t : Nat) (dst nonce ct aad tmp : Lis
     simp only [Bool.false_eq_true, if_false] at rV
     simp only [if_pos h0]
     -- ret1 := 1 and the arguments of the ladder
-    let a0 : State := { sV with frame := openFrame t nonce ct aad 1 }
+    let a0 : State := { sV with frame := openFrame cp t nonce ct aad 1 }
     have x0 : execD sV (ins .MOVQ [.imm 1, .frame "ret1" 112] 0) = .ok a0 :=
-      a_movq_imm_frame sV 1 "ret1" 112 _ (by show setSlot s9.frame _ _ = _; rw [hfr9, imm64_1'']; exact setRet t nonce ct aad r0 1)
+      a_movq_imm_frame sV 1 "ret1" 112 _ (by show setSlot s9.frame _ _ = _; rw [hfr9, imm64_1'']; exact setRet cp t nonce ct aad r0 1)
     have hG0 : a0.gpr.length = 16 := av.pc.lenG
     have fDst : lookup a0.frame "dst" = some 77309411328 := by simp [a0, openFrame, lookup]; rfl
-    have fC : lookup a0.frame "cipher" = some 85899345920 := by simp [a0, openFrame, lookup]; rfl
+    have fC : lookup a0.frame "cipher" = some cp := by simp [a0, openFrame, lookup]
     have fCl : lookup a0.frame "cipherLen" = some ct.length := by simp [a0, openFrame, lookup]
     have fTs : lookup a0.frame "tagSize" = some t := by simp [a0, openFrame, lookup]
     have fTmp : lookup a0.frame "tmp" = some 94489280512 := by simp [a0, openFrame, lookup]; rfl
     obtain ⟨nC, hnC⟩ : ∃ nC, nC = ct.length - t := ⟨_, rfl⟩
     let a1 := setGreg a0 13 77309411328
-    let a2 := setGreg a1 10 85899345920
+    let a2 := setGreg a1 10 cp
     let a3 := setGreg a2 9 ct.length
     let a4 := setGreg a3 14 t
     have hG4 : a4.gpr.length = 16 := by simp [a4, a3, a2, a1]; exact hG0
@@ -167,7 +157,7 @@ theorem open_reach12 (g v k rk : List Nat) (t : Nat) (dst nonce ct aad tmp : Lis
       intro m hm
       show greg (setFlags (setGreg a4 9 _) _) m = _
       rw [greg_setFlags, greg_setGreg_ne a4 9 _ m hm]
-    have g710 : greg a7 10 = 85899345920 := by
+    have g710 : greg a7 10 = cp := by
       rw [rest7 10 (by decide) (by decide), rest5 10 (by decide)]
       show greg (setGreg a3 14 _) 10 = _
       rw [greg_setGreg_ne a3 14 _ 10 (by decide)]
@@ -182,28 +172,18 @@ theorem open_reach12 (g v k rk : List Nat) (t : Nat) (dst nonce ct aad tmp : Lis
       show greg (setGreg a1 10 _) 13 = _
       rw [greg_setGreg_ne a1 10 _ 13 (by decide)]; exact greg_setGreg_eq a0 13 _ (by rw [hG0]; decide)
     -- the memory family of the ladder
-    have lm0 := ladMem_fmem "cipher" false rk nonce ct aad dst.length hrk hdl32 hcl
-    have lm : LadMem (fun d t' => fmem "cipher" false rk d nonce ct aad t') 77309411328 dst.length 94489280512 rk (ct.take nC) 85899345920 :=
-      ⟨lm0.m2, lm0.rk, fun dc tc hdc htc => DataAt.take (lm0.src dc tc hdc htc) nC⟩
+    rw [← hnC] at lm hs0
     have hCl : (ct.take nC).length = nC := by rw [List.length_take]; omega
     have pc0 : PCtx a0 := ⟨av.pc.lenG, av.pc.lenV, av.pc.lenK, av.pc.syms, av.pc.v10, av.pc.v11, av.pc.v12, av.pc.v16, av.pc.v17, av.pc.v18,
       av.pc.v22, av.pc.v23, av.pc.v24⟩
     have gh0 : GhCtx (hKey rk) a0 := ⟨av.gh.lenG, av.gh.lenV, av.gh.lenK, av.gh.v22, av.gh.v23, av.gh.v24,
       ⟨av.gh.hc.hlt, av.gh.hc.v19, av.gh.hc.v25, av.gh.hc.v26, ⟨av.gh.hc.c4.v29, av.gh.hc.c4.v30, av.gh.hc.c4.v31⟩⟩⟩
-    have hjb : (nonce ++ [0, 0, 0, 1]).length = 16 := by simp [hn]
-    have hjbb : ∀ x ∈ nonce ++ [0, 0, 0, 1], x < 2 ^ 8 := by
-      intro x hx
-      rw [List.mem_append] at hx
-      rcases hx with h1 | h1
-      · exact hnb x h1
-      · simp only [List.mem_cons, List.not_mem_nil, or_false] at h1
-        rcases h1 with rfl | rfl | rfl | rfl <;> decide
     obtain ⟨s10, N10, hN10, r10, e10⟩ := ladder_reach openR 1785 10247 (ladSlices_of openR 1785 10247 os.lad) open_ladLabels
-      (fun d t' => fmem "cipher" false rk d nonce ct aad t') 77309411328 dst.length 94489280512 85899345920 rk (nonce ++ [0, 0, 0, 1])
+      (fun d t' => fmem "cipher" false rk d nonce inp aad t') 77309411328 dst.length 94489280512 cp rk (jb)
       (ct.take nC) lm hrk hrkb hjb hjbb (fun x hx => hcb x (List.mem_of_mem_take hx)) (by rw [hCl]; omega) (by omega) (by rw [hCl]; omega)
       (by decide) 0 (hKey rk) 0 (by decide) (Or.inl rfl) (vreg s9 21) dst b9 a7 (pc0.of_keepsM kA (by decide)) (gh0.of_keepsM kA (by decide))
       (by rw [kA.g 15 (by decide)]; exact av.rkp) g70 (by rw [g79, hCl]) g710 g713 g76 (by rw [kA.v 14 (by decide)]; exact av.j0)
-      (by rw [kA.v 21 (by decide)]; rfl) av.acc (by show s9.mem = _; exact hm9) rfl hb9
+      (by rw [kA.v 21 (by decide)]; rfl) av.acc (by show s9.mem = _; exact hm9) rfl hb9 hs0
     have e := e10 (nC / 256 + 5) (by rw [hCl]; exact Nat.le_refl _)
     rw [ladN_fuel rk _ (hKey rk) 0 (nC / 256 + 5) fuel 0 _ _ (by rw [hCl]; exact fuelNeed_le _) (by rw [hCl, hnC]; exact hfuel),
       ladN_fst_hf0 rk _ (hKey rk) fuel 0 _ 0] at e
@@ -213,21 +193,38 @@ theorem open_reach12 (g v k rk : List Nat) (t : Nat) (dst nonce ct aad tmp : Lis
     have rN : Reach openR 5555 s10 5556 s10 1 :=
       reach_seg (s := s10) (s' := s10) sN (by rfl) (exec_step (s1 := s10) rfl (execList_nil _))
     have rJ : Reach openR 5556 s10 5558 s10 1 := reach_jmp sF0 (label_findPc open_labels (name := "openDone") (by decide)) s10
-    refine ⟨s10, N9 + 2 + 8 + N10 + 1 + 1, by rw [hCl] at hN10; omega, (((((r9.trans rV).trans rA).trans r10).trans rN).trans rJ).cast rfl rfl, ?_, ?_⟩
+    refine ⟨s10, 2 + 8 + N10 + 1 + 1, by rw [hCl] at hN10; omega, ((((rV.trans rA).trans r10).trans rN).trans rJ).cast rfl rfl, ?_, ?_⟩
     · rw [e.keep.frame]; rfl
     · rw [regionBytes_fmem s10 _ _ _ _ _ _ _ _ hm10]
-      unfold openOutN
+      unfold openOutJ
       rw [← hnC]
   · -- the tags differ
     have hdne : decide (d ≠ 0) = true := by simp [h0]
     rw [hdne] at rV
     simp only [if_true] at rV
     simp only [if_neg h0]
-    let aE : State := { sV with frame := openFrame t nonce ct aad 0 }
+    let aE : State := { sV with frame := openFrame cp t nonce ct aad 0 }
     have xE : execD sV (ins .MOVQ [.imm 0, .frame "ret1" 112] 0) = .ok aE :=
-      a_movq_imm_frame sV 0 "ret1" 112 _ (by show setSlot s9.frame _ _ = _; rw [hfr9, imm64_0']; exact setRet t nonce ct aad r0 0)
+      a_movq_imm_frame sV 0 "ret1" 112 _ (by show setSlot s9.frame _ _ = _; rw [hfr9, imm64_0']; exact setRet cp t nonce ct aad r0 0)
     have rE : Reach openR (5556 + 1) sV (5556 + 1 + 1) aE 1 := reach_seg sF1 (by rfl) (by apply exec_step xE; exact execList_nil _)
-    refine ⟨aE, N9 + 2 + 1, by omega, ((r9.trans rV).trans rE).cast rfl rfl, rfl, ?_⟩
+    refine ⟨aE, 2 + 1, by omega, (rV.trans rE).cast rfl rfl, rfl, ?_⟩
     exact regionBytes_fmem aE _ _ _ _ _ _ _ _ (by show s9.mem = _; exact hm9)
+
+/-- **`openAsm` from the verdict to `RET`**, input in its own region -/
+theorem open_after_verdict (g v k rk : List Nat) (t : Nat) (dst nonce ct aad tmp : List Nat) (r0 : Nat)
+    (hrk : rk.length = 32) (hrkb : ∀ x ∈ rk, x < 2 ^ 32)
+    (hcb : ∀ x ∈ ct, x < 2 ^ 8) (hcl : ct.length < 2 ^ 32) (ht : t ≤ 16) (htc : t ≤ ct.length)
+    (hdl : ct.length - t ≤ dst.length) (hdl32 : dst.length < 2 ^ 32) (jb : List Nat) (hjb : jb.length = 16) (hjbb : ∀ x ∈ jb, x < 2 ^ 8)
+    (s9 : State) (av : AtVerdict g v k rk t dst nonce ct aad tmp r0 jb s9) (fuel : Nat) (hfuel : fuelNeed (ct.length - t) ≤ fuel) :
+    ∃ s' N, N ≤ 700 * ((ct.length - t) / 256) + 4300 ∧ Reach openR 1775 s9 5558 s' N ∧
+      (if orBytes (xorN ((openTagJ rk jb ct aad t).take t) (ct.drop (ct.length - t))) = 0
+       then s'.frame = openFrame 85899345920 t nonce ct aad 1 ∧ regionBytes s' "dst" = some (spliceAt dst 0 (openOutJ rk jb ct t fuel))
+       else s'.frame = openFrame 85899345920 t nonce ct aad 0 ∧ regionBytes s' "dst" = some dst) := by
+  have lm0 := ladMem_fmem "cipher" false rk nonce ct aad dst.length hrk hdl32 hcl
+  have hd : ∀ d b, DataAt (fmem "cipher" false rk d nonce ct aad b) 85899345920 (ct.take (ct.length - t)) := fun d b =>
+    DataAt.take (fun off n hn => fmem_read_inp "cipher" false rk d nonce ct aad b off n hn (by omega)) _
+  exact open_after_verdict_gen rk t dst nonce ct ct aad 85899345920 r0 hrk hrkb hcb hcl ht htc hdl hdl32 jb hjb hjbb s9 av
+    ⟨lm0.m2, lm0.rk, fun dc tc o n bs _ _ _ _ _ => SrcFrom.ofData (hd _ tc) _⟩ (fun b _ => SrcFrom.ofData (hd dst b) 0) (by omega)
+    fuel hfuel
 
 end SMGo.Proofs.ISAVal
